@@ -826,6 +826,18 @@ class Parser:
                 **locs,
                 **cmd.loc_end(),
             )
+        # any other combination involving @(...) keeps the parts in a tuple: a Starred is no operand
+        if isinstance(tree, ast.Starred | ast.Tuple) or isinstance(cmd, ast.Starred):
+            return ast.Tuple(
+                elts=[
+                    *(tree.elts if isinstance(tree, ast.Tuple) else [tree]),
+                    ast.Constant(value=cmd.string, **cmd.loc()) if isinstance(cmd, TokenInfo) else cmd,
+                ],
+                ctx=Load,
+                **locs,
+                end_lineno=cmd.end_lineno if isinstance(cmd, ast.AST) else cmd.end[0],
+                end_col_offset=cmd.end_col_offset if isinstance(cmd, ast.AST) else cmd.end[1],
+            )
         return ast.BinOp(
             left=tree,
             op=ast.Add(),
